@@ -432,15 +432,17 @@ def random_spec(seed: int, profile: Optional[Dict[str, Any]] = None) -> Dict[str
             k = 0 if r < 0.15 else 1 if r < 0.7 else 2 if r < 0.9 else nf
             for fid in rnd.sample(fids, k=min(k, nf)):
                 fleets[fid]["vehicles"].append(v["id"])
-        # a base and its attached station share their fleets (DESIGN §6)
+        # a base and its attached station share their fleets, or the station stays open to all (DESIGN §6:
+        # a station restricted to *other* fleets than its base is the one layout left out)
         for b in bases:
             if b["id"].startswith("hb"):
                 continue
             r = rnd.random()
             k = 0 if r < 0.3 else 1 if r < 0.85 else 2
+            public_station = rnd.random() < 0.35
             for fid in rnd.sample(fids, k=min(k, nf)):
                 fleets[fid]["bases"].append(b["id"])
-                if b.get("station"):
+                if b.get("station") and not public_station:
                     fleets[fid]["stations"].append(b["station"])
         for s in stations:
             if s["id"].startswith("s"):
